@@ -183,7 +183,7 @@ def run_shards(prop_id: str, cases, tier: str, seed: int, jobs: int):
                 fh.write(json.dumps({"i": i, "input": c["input"], "digest_size": c.get("digest_size"),
                                      "opts": c.get("opts")}) + "\n")
         env = dict(os.environ)
-        env["PYTHONPATH"] = "/repo/src:" + ROOT
+        env["PYTHONPATH"] = os.environ.get("VERIF_PYOAK_SRC", "/repo/src") + ":" + ROOT
         env["PYTHONHASHSEED"] = str((seed * 7919 + k * 104729 + 1) % 4294967295)
         env["VERIF_TIER"] = tier
         p = subprocess.Popen([PY, "-m", "harness.worker", prop_id, inf, outf], env=env, cwd=ROOT,
